@@ -140,6 +140,11 @@ def canon(t):
             m = t[2][1][1]
             a = canon(t[2][0])
             return a.add(fdiv(a, m).mul(Poly.const(m)), -1)
+        if op == "BitAnd" and t[2][1][0] == "int" and t[2][1][1] > 0 and ((~t[2][1][1]) & ((1 << 64) - 1)) + 1 & ((~t[2][1][1]) & ((1 << 64) - 1)) == 0 and t[2][1][1] >= (1 << 63):
+            # e & !(2^c - 1)  ==  2^c * floor(e / 2^c)   (mask with all bits above c set, 64-bit usize)
+            low = (~t[2][1][1]) & ((1 << 64) - 1)
+            k2 = low + 1
+            return fdiv(canon(t[2][0]), k2).mul(Poly.const(k2))
         if op == "BitAnd" and t[2][1][0] == "int" and (t[2][1][1] + 1) & t[2][1][1] == 0:
             m = t[2][1][1] + 1
             a = canon(t[2][0])
